@@ -116,3 +116,24 @@ Proof.
   intros Hctx Hsafe. rewrite !lex_around_quote by assumption.
   rewrite !has_err_app. cbn. reflexivity.
 Qed.
+
+(* ---- lexing a statement given as prefix ++ middle ++ suffix, with the work on prefix and suffix shared
+   (used by the correspondence evaluation, model/SqlCase.v) *)
+Lemma st_eqb_eq a b : st_eqb a b = true -> a = b.
+Proof.
+  destruct a, b; cbn; try discriminate; try reflexivity; intro H;
+  try (apply andb_true_iff in H; destruct H as [H1 H2]; apply String.eqb_eq in H1; apply Ascii.eqb_eq in H2; now subst);
+  try (apply String.eqb_eq in H; now subst);
+  try (apply Ascii.eqb_eq in H; now subst).
+Qed.
+
+Lemma lex_three pre mid suf :
+  lex (pre ++ mid ++ suf) =
+  (outs QN pre ++ outs (after QN pre) mid ++ run (after (after QN pre) mid) suf)%list.
+Proof. unfold lex. rewrite run_app, run_app. reflexivity. Qed.
+
+Lemma trace_spec : forall s q, trace q s = (after q s, outs q s).
+Proof.
+  induction s as [|c s IH]; intro q; [reflexivity|].
+  cbn [trace after outs]. destruct (step q c) as [q' o]. cbn [fst snd]. rewrite IH. reflexivity.
+Qed.
